@@ -786,6 +786,14 @@ def nameClash (dbi : DB) (rp : String) (u : RPUpdate) : Bool :=
   | none => false
   | some n => n ≠ rp ∧ (dbi.rp? n).isSome
 
+/-- `checkUpdateRetentionPolicyName`, then the empty new name is refused (`fix:` the empty name
+stands for the default policy; a policy renamed to it could not be addressed any more and the
+next such rename overwrote it). -/
+def renameError (dbi : DB) (rp : String) (u : RPUpdate) : Option String :=
+  if nameClash dbi rp u then some eRpExists
+  else if u.newName = some "" then some eRpNameRequired
+  else none
+
 /-- the database after `updateWithOtherRetentionPolicy` + the re-keying of a renamed policy
 (`fix:` 7b717c6): `delete(map, oldName); map[newName] = rpi`, the default name follows; then
 `makeDefault`. The object was found under key `k`. -/
@@ -797,7 +805,7 @@ def writeBack (dbi : DB) (k newName : String) (r r' : RP) (makeDefault : Bool) :
     else { dbi with rps := alInsert k r' dbi.rps }
   { dbi1 with defaultRP := if makeDefault then newName else dbi1.defaultRP }
 
-/-- `Data.UpdateRetentionPolicy` (after the re-keying fix). -/
+/-- `Data.UpdateRetentionPolicy` (after the re-keying fix and the empty-name fix). -/
 def updateRetentionPolicy (d : Data) (db rp : String) (u : RPUpdate) : Step :=
   match getDatabase d db with
   | .error e => fail d e
@@ -805,8 +813,9 @@ def updateRetentionPolicy (d : Data) (db rp : String) (u : RPUpdate) : Step :=
     match dbi.getRP rp with
     | .error e => fail d e
     | .ok (k, r) =>
-      if nameClash dbi rp u then fail d eRpExists
-      else
+      match renameError dbi rp u with
+      | some e => fail d e
+      | none =>
         let x : Durs := { duration := u.duration.getD r.duration, sg := u.sgDuration.getD r.sgDuration, ig := u.igDuration.getD r.igDuration,
                           merge := 0, hot := u.hot.getD r.hot, warm := u.warm.getD r.warm, cold := u.indexCold.getD r.indexCold }
         match checkSpecValid x with
